@@ -60,6 +60,7 @@ type Set struct {
 	Members []int  `json:"members"` // type indices whose source lives here
 	Nested  []int  `json:"nested"`  // set ids
 	Parent  int    `json:"parent"`  // -1 = root
+	Inline  int    `json:"inline,omitempty"` // number of anonymous inline wire.NewSet(...) groups the items are split into
 	Dup     bool   `json:"dup,omitempty"` // malformed on purpose: first member listed twice (multiple bindings); used by no injector
 }
 
@@ -85,6 +86,7 @@ type Injector struct {
 	DeclCleanup bool    `json:"cleanup"`
 	DeclErr     bool    `json:"err"`
 	Build       []Item  `json:"build"`
+	Inline      int     `json:"inline,omitempty"` // inline wire.NewSet(...) groups inside wire.Build
 	Panic       bool    `json:"panic,omitempty"`
 	Doc         bool    `json:"doc,omitempty"`
 	// derived, for the driver and the reach probes
@@ -155,7 +157,7 @@ func RandomKnobs(r *rand.Rand, big bool) Knobs {
 
 var adversarialTypeNames = []string{"Err", "Cleanup", "Select", "Var", "Func", "Type", "Range", "Map", "Chan", "Go", "Defer", "Error", "String", "Int", "Bool", "Nil", "True", "Len", "New", "Wire", "Context", "Arg", "V", "Foo", "Foo2", "Foo_2", "FOO", "Panic", "Import", "Package"}
 
-var adversarialParamNames = []string{"err", "cleanup", "cleanup2", "err2", "arg", "v", "string_", "len", "new", "select_", "t0", "t1"}
+var adversarialParamNames = []string{"err", "cleanup", "cleanup2", "err2", "arg", "v", "string_", "select_", "t0", "t1", "wire_", "p0", "q0"}
 
 var anonPool = []string{"embed", "unicode/utf8", "sort", "errors", "strings", "unicode", "math/bits"}
 
@@ -345,6 +347,9 @@ func Generate(r *rand.Rand, k Knobs) *Module {
 			continue
 		}
 		sort.Ints(set.Members)
+		if r.IntN(3) == 0 {
+			set.Inline = 1 + r.IntN(3)
+		}
 		m.Sets = append(m.Sets, set)
 	}
 	// re-number set ids to positions (some were skipped)
@@ -527,6 +532,9 @@ func (m *Module) genInjector(r *rand.Rand, k Knobs, p *Pkg, j int) *Injector {
 	inj.DeclCleanup = inj.NeedCleanups > 0 || r.IntN(5) == 0
 	inj.DeclErr = inj.NeedErrs > 0 || r.IntN(5) == 0
 	inj.Panic = r.IntN(3) == 0
+	if r.IntN(4) == 0 {
+		inj.Inline = 1 + r.IntN(2)
+	}
 	inj.Doc = r.IntN(4) == 0
 	return inj
 }
